@@ -11,7 +11,11 @@
            bounded by C19_accepted_modulo_kelvin).  Any other non-ASCII, non-whitespace character makes the model reject
            (C19_accepted_is_ascii), so the model's reading of str.lower() on such characters is immaterial.
    Table   LicTable.spdx_table_ok is re-proved by vm_compute over the table of the working tree on every run.
-   Text    Whether "LicenseRef-x+" is well-formed is not fixed by the property; the code accepts it and so does LicSpec.lic_canon. *)
+   Text    Whether "LicenseRef-x+" is well-formed is not fixed by the property; the code accepts it and so does LicSpec.lic_canon.
+   Trusted (NOT PROVED, validated by the correspondence run only): that CPython's eval() of the False/or/and/(/) skeleton behaves like
+           LicModel.py_eval (exhaustive sweep over all guard-passing skeletons up to the length bound of the run + depth probes); that
+           str.lower/split/replace and re.match behave like LicModel.lower/split_ws/rep2/ref_match (probed over all code points).
+           case_and_layout_insensitive is stated for KELVIN-free inputs only. *)
 From Coq Require Import List NArith Bool.
 Import ListNotations.
 Require Import VParse LicModel LicAuto LicSpec LicLex LicCode LicIdem LicKelvin LicGrammar LicTable LicTop LicFinal SpdxTable.
